@@ -54,7 +54,7 @@ func genC14(t *rapid.T) C14Case {
 			op.Op = "mutret"
 		case k < 20:
 			op.Op = "partial"
-			op.IDSel = rapid.IntRange(0, 255).Draw(t, "subset")
+			op.IDSel = rapid.IntRange(0, 511).Draw(t, "subset") // bit 8: the request also names a hash the pool does not hold
 		case k < 22:
 			op.Op = "parents"
 			op.IDSel = rapid.IntRange(0, 7).Draw(t, "which")
@@ -547,7 +547,11 @@ func runC14(c C14Case, cs *kit.CaseStats) error {
 				}
 				all++
 			}
-			want = append(want, types.HashBytes([]byte{byte(op.IDSel), byte(oi)})) // unknown hash
+			if op.IDSel>>8&1 == 1 {
+				want = append(want, types.HashBytes([]byte{byte(op.IDSel), byte(oi)})) // unknown hash
+			} else if len(wantSet) > 0 {
+				cs.Class("partial-block-query-fully-served")
+			}
 			g1, g2 := node.CM.TransactionsForPartialBlock(want)
 			got := map[types.Hash256]int{}
 			for _, t := range g1 {
